@@ -75,11 +75,29 @@ def gen_stack(rnd, optional_marks):
                 args = [y] if rnd.random() < 0.7 else [y, x]
                 items.append({'t': 'transform', 'fields': {y: [fresh(), args]}, 'params': {}, 'inherit': True if rnd.random() < 0.7 else [x],
                               'optional': [y] if rnd.random() < 0.3 else [], 'meta': []})
+        tail = rnd.random()
+        others = [n for n in PUB if n not in (x, y)]
+        if tail < 0.3:
+            # two fields reach the missing root through ONE shared field: both are left out (or both make the pipeline unusable)
+            u, w = rnd.sample(others, 2)
+            items.append({'t': 'transform', 'fields': {u: [fresh(), [y]], w: [fresh(), [y, x] if rnd.random() < 0.5 else [y]]}, 'params': {}, 'inherit': [x],
+                          'optional': [u, w] if rnd.random() < 0.8 else [u], 'meta': []})
+        elif tail < 0.55:
+            # an optional field with two unreachable inputs of different standing: the optional y and a name nobody provides, which a private
+            # parameter of the same layer also uses (a required user): the pipeline is unusable, loudly
+            z, v = rnd.sample(others, 2)
+            items.append({'t': 'transform', 'fields': {z: [fresh(), [y, '_p'] if rnd.random() < 0.5 else [y, v, '_p']]}, 'params': {'_p': [fresh(), [v]]},
+                          'inherit': [x], 'optional': [z], 'meta': []})
         return items
     if rnd.random() < 0.35:
         items.append({'t': 'src', 'fields': {f: fresh() for f in rnd.sample(PUB, rnd.randint(1, 3))}, 'ids_sym': fresh()})
     p_cache = 0.3 if optional_marks else 0.15
-    for _ in range(rnd.randint(1, 4)):
+    redefine_id_at = rnd.randint(1, 3) if items and rnd.random() < 0.3 else None
+    for step in range(rnd.randint(1, 4)):
+        if redefine_id_at == step + 1:
+            # a layer may redefine the key field `id` (a persistent name): from there on `id` is what that layer computes
+            items.append({'t': 'transform', 'fields': {'id': [fresh(), ['id']]}, 'params': {}, 'inherit': True, 'optional': [], 'meta': []})
+            continue
         if items and rnd.random() < p_cache:
             items.append({'t': 'ram', 'names': None if rnd.random() < 0.5 else rnd.sample(PUB, rnd.randint(1, 3)), 'size': None})
         elif rnd.random() < 0.12:
@@ -283,11 +301,65 @@ def brackets(objs, rnd):
                 out.append(('right-nested', lambda sub=sub: Chain(*objs[:k], sub)))
         out.append(('lazy-tail', lambda: Chain(objs[0], LazyChain(*objs[1:]))))
         out.append(('lazy-middle', lambda: Chain(*objs[:k], LazyChain(*objs[k:]))))
+        # ONE LazyChain object connected twice, and in the tail of a nested chain (connected by the inner chain, again by the outer one)
+        lazy = LazyChain(*objs[k:])
+        out.append(('lazy-object-first-use', lambda: Chain(*objs[:k], lazy)))
+        out.append(('lazy-object-second-use', lambda: Chain(*objs[:k], lazy)))
+        if k >= 2 and hasattr(objs[1], '_container'):
+            lazy2 = LazyChain(*objs[k:])
+            sub = inner(lambda: Chain(*objs[1:k], lazy2))
+            if sub is not None:
+                out.append(('lazy-in-nested-tail', lambda sub=sub: Chain(objs[0], sub)))
     if len(objs) >= 4 and hasattr(objs[1], '_container'):
         sub = inner(lambda: Chain(Chain(*objs[1:3]), *objs[3:]))
         if sub is not None:
             out.append(('deep-nested', lambda sub=sub: Chain(objs[0], sub)))
     return out
+
+
+def const_sequences(rnd):
+    """instances of one class created one after the other with ==-equal arguments of different types (2, 2.0, True, 1, ...): each computes with its own"""
+    wrong = []
+    for _ in range(6):
+        seq = rnd.sample(CONSTS, len(CONSTS))
+        for cls, f, sym in ((Scale, 'a', 's140'), (Shift, 'b', 's141')):
+            objs = [cls(factor=v) if cls is Scale else cls(by=v) for v in seq]
+            for v, o in zip(seq, objs):
+                try:
+                    got = o._compile(f)(**{f: 'IN'})
+                except BaseException as e:  # noqa
+                    got = 'ERR:' + type(e).__name__
+                want = f"${sym}('IN',{v!r})" if cls is Scale else f"${sym}('IN',{v!r},False)"
+                if got != want:
+                    wrong.append({'item': {'t': 'const', 'cls': cls.__name__, 'value': v, 'created_in_sequence': [repr(x) for x in seq]}, 'got': got, 'want': want})
+    return wrong[:4]
+
+
+def shared_cache_layer(rnd):
+    """ONE CacheToRam(size=1) object over two fields and in two pipelines: every field of every connection has a table of its own"""
+    from connectome import CacheToRam
+    bad = []
+    cache = CacheToRam(size=1)
+    k1, k2 = rnd.sample(['i1', 'i2', 'i3'], 2)
+    p1 = P.build_layer({'t': 'source', 'ids': ['i1', 'i2', 'i3'], 'fields': {'a': 's142', 'b': 's143'}}, []) >> cache
+    p2 = P.build_layer({'t': 'source', 'ids': ['i1', 'i2', 'i3'], 'fields': {'a': 's144', 'b': 's145'}}, []) >> cache
+
+    def ask(p, f, k):
+        del sympool.CALLS[:]
+        v = getattr(p, f)(k)
+        return v, [c[0] for c in sympool.CALLS]
+    steps = [(p1, 'a', k1, 's142', True), (p1, 'b', k1, 's143', True), (p1, 'a', k1, 's142', False), (p2, 'a', k1, 's144', True), (p1, 'a', k1, 's142', False),
+             (p2, 'b', k1, 's145', True), (p2, 'a', k1, 's144', False), (p1, 'b', k1, 's143', False), (p1, 'a', k2, 's142', True), (p1, 'b', k1, 's143', False)]
+    for n, (p, f, k, sym, runs) in enumerate(steps):
+        try:
+            v, ran = ask(p, f, k)
+        except BaseException as e:  # noqa
+            bad.append({'step': n, 'exc': type(e).__name__})
+            break
+        if v != f"${sym}('{k}')" or ran != ([sym] if runs else []):
+            bad.append({'step': n, 'pipeline': 1 if p is p1 else 2, 'field': f, 'key': k, 'value': v, 'ran': ran, 'expected_value': f"${sym}('{k}')", 'expected_to_run': runs})
+            break
+    return bad
 
 
 def main():
@@ -347,6 +419,16 @@ def main():
         except BaseException as e:  # noqa
             obs = {'error': f'{type(e).__name__}: {e}'[:200]}
         case = {'items': items, 'obs': obs, 'reuse': reuse, 'unmodelled': bool(unmodelled), 'const_wrong': wrong}
+        # a CheckIds() on top changes neither which fields the pipeline lists nor whether it is usable at all (it keeps the optional marks)
+        if items[0]['t'] in ('src', 'source') and 'error' not in obs:
+            try:
+                from connectome import CheckIds
+                with_chk = observe(layer >> CheckIds())
+                a_, b_ = ('deperr' in obs, obs.get('listed')), ('deperr' in with_chk, with_chk.get('listed'))
+                if a_ != b_:
+                    case['checkids_differs'] = {'without': {'dependency_error': a_[0], 'listed': a_[1]}, 'with_checkids': {'dependency_error': b_[0], 'listed': b_[1]}}
+            except BaseException as e:  # noqa
+                case['checkids_differs'] = {'exc': f'{type(e).__name__}: {e}'[:200]}
         try:
             Chain(*objs)
         except BaseException:  # noqa
@@ -371,6 +453,9 @@ def main():
             case['variants'] = vs
             case['operands_unchanged'] = case['operands_unchanged'] and before == after
         cases.append(case)
+    if cases:
+        cases[0]['const_wrong'] = cases[0].get('const_wrong', []) + const_sequences(rnd)
+        cases[0]['shared_cache_layer'] = shared_cache_layer(rnd)
     dump({'cases': cases}, a.out)
 
 
